@@ -6,7 +6,9 @@ package main
 import (
 	"bytes"
 	"context"
+	"errors"
 	"fmt"
+	"io"
 	"os"
 	"path/filepath"
 	"reflect"
@@ -129,6 +131,22 @@ func (k *sink) exp(s string) string {
 
 var run *vlib.Run
 var renders, meta atomic.Int64
+
+// failAfter accepts n bytes and then fails.
+type failAfter struct{ n, got int }
+
+func (w *failAfter) Write(p []byte) (int, error) {
+	if w.got+len(p) > w.n {
+		k := w.n - w.got
+		if k < 0 {
+			k = 0
+		}
+		w.got += k
+		return k, errors.New("writer failed")
+	}
+	w.got += len(p)
+	return len(p), nil
+}
 
 // compare walks the benign token stream and the actual one; returns "" or a description.
 func (k *sink) compare(s, html string) string {
@@ -327,6 +345,44 @@ func main() {
 			checkOne(k, strs[i])
 		}
 	})
+	// histories on one goroutine pinned to its thread: a render that FAILS (data that cannot be encoded, an expression
+	// that returns an error, a writer that fails after a few bytes) immediately followed by every sink with
+	// every short alphabet string: whatever the failed render left in a pool or cache meets the next render
+	{
+		runtime.LockOSThread()
+		var short []string
+		vlib.Seqs(alpha, 1, func(s string, _ []int) bool { short = append(short, s); return true })
+		short = append(short, shaped...)
+		failing := []func(){
+			func() {
+				templ.JSONScript("pre\"id", make(chan int)).WithNonceFromString("pre'nonce").Render(context.Background(), io.Discard)
+			},
+			func() {
+				templ.JSONScript("pre-id", func() {}).WithType("pre/type").Render(context.Background(), io.Discard)
+			},
+			func() { templ.JSONString(make(chan int)) },
+		}
+		for _, k := range sinks {
+			k := k
+			for n := 0; n <= 40; n += 8 {
+				n := n
+				// the sink itself into a writer that fails after n bytes, with a marker-free value
+				failing = append(failing, func() { k.mk("PRE<\"'>").Render(context.Background(), &failAfter{n: n}) })
+			}
+		}
+		hist := 0
+		for _, f := range failing {
+			for _, k := range sinks {
+				for _, s := range short {
+					f()
+					checkOne(k, s)
+					hist++
+				}
+			}
+		}
+		runtime.UnlockOSThread()
+		run.Cov["fail_then_render_histories"] = hist
+	}
 	// every Unicode scalar value as a singleton (all sinks in thorough; a representative sink per kind in quick)
 	scalarSinks := sinks
 	if !run.Thorough() {
